@@ -189,6 +189,11 @@ def run_unit(unit, mode, sources, rlimit=None, extra_args=(), keep=True, tag='')
             dg.kind = 'resource'
         elif any(msg.startswith(x) for x in DEFINITE):
             dg.kind = 'definite'
+        elif re.search(r'expression simplifies to (false$|.*which evaluates to false)', msg.strip()):
+            # assert(..) by (compute_only) whose expression the verifier evaluated to false: a refuted
+            # assertion (Verus reports it as a vir error and stops, but the verdict on that assertion is definite)
+            dg.kind = 'definite'
+            dg.compute_refuted = True
         else:
             dg.kind = 'frontend'
         # function: prefer the span labelled "at the end of the function body", else primary in our file
@@ -250,6 +255,8 @@ def run_unit(unit, mode, sources, rlimit=None, extra_args=(), keep=True, tag='')
     if js is None and not res.diags:
         res.frontend_error = (p.stderr or p.stdout)[-3000:]
     fe = [d for d in res.diags if d.kind == 'frontend']
+    if res.frontend_error == 'vir error' and not fe and any(getattr(d, 'compute_refuted', False) for d in res.diags):
+        res.frontend_error = None
     if fe and not res.frontend_error:
         res.frontend_error = '; '.join(d.message for d in fe[:5])
     res.resource_out = [d for d in res.diags if d.kind == 'resource']
